@@ -22,18 +22,20 @@ VARIABLES steps,      \* history: outcomes of the executed steps, in order
           broken,     \* a transport fault was injected (cut / read error / write error)
           cancelled,  \* the context was cancelled
           silent,     \* after the cancellation the peer sends nothing any more
+          ctxd,       \* the context given to the call carries a (far-off) deadline of its own besides being
+                      \* cancellable - nothing the property says depends on it
           ready,      \* the ready bit as reported after the call
           result      \* "none" | "ok" | "err" | "stall"
 
-vars == <<steps, inStep, broken, cancelled, silent, ready, result>>
+vars == <<steps, inStep, broken, cancelled, silent, ctxd, ready, result>>
 
 Init == /\ steps = <<>> /\ inStep = FALSE /\ broken = FALSE /\ cancelled = FALSE
-        /\ silent \in BOOLEAN /\ ready = FALSE /\ result = "none"
+        /\ silent \in BOOLEAN /\ ctxd \in BOOLEAN /\ ready = FALSE /\ result = "none"
 
 Running == result = "none"
 
 StepBegin == /\ Running /\ ~inStep /\ Len(steps) < MaxSteps /\ inStep' = TRUE
-             /\ UNCHANGED <<steps, broken, cancelled, silent, ready, result>>
+             /\ UNCHANGED <<steps, broken, cancelled, silent, ctxd, ready, result>>
 
 (* a step that runs into the fault cannot succeed; a cancelled one may still finish  *)
 (* if all it needed had already arrived - but then the call as a whole must fail     *)
@@ -41,13 +43,13 @@ StepEnd(ok) ==
   /\ Running /\ inStep
   /\ (ok => ~broken \/ "StepSucceedsAfterFault" \in Dev)
   /\ steps' = Append(steps, ok) /\ inStep' = FALSE
-  /\ UNCHANGED <<broken, cancelled, silent, ready, result>>
+  /\ UNCHANGED <<broken, cancelled, silent, ctxd, ready, result>>
 
 Fault == /\ Running /\ ~broken /\ broken' = TRUE
-         /\ UNCHANGED <<steps, inStep, cancelled, silent, ready, result>>
+         /\ UNCHANGED <<steps, inStep, cancelled, silent, ctxd, ready, result>>
 
 Cancel == /\ Running /\ ~cancelled /\ cancelled' = TRUE
-          /\ UNCHANGED <<steps, inStep, broken, silent, ready, result>>
+          /\ UNCHANGED <<steps, inStep, broken, silent, ctxd, ready, result>>
 
 AllOK == \A i \in 1..Len(steps) : steps[i]
 
@@ -57,18 +59,19 @@ ReturnOK ==
   /\ (~broken \/ "IgnoreFault" \in Dev)
   /\ (~cancelled \/ "LoseCancellation" \in Dev)
   /\ result' = "ok" /\ ready' = TRUE
-  /\ UNCHANGED <<steps, inStep, broken, cancelled, silent>>
+  /\ UNCHANGED <<steps, inStep, broken, cancelled, silent, ctxd>>
 
 ReturnErr ==
   /\ Running
   /\ result' = "err" /\ ready' = ("ReadyOnError" \in Dev)
-  /\ UNCHANGED <<steps, inStep, broken, cancelled, silent>>
+  /\ UNCHANGED <<steps, inStep, broken, cancelled, silent, ctxd>>
 
 (* only as a deviation: the call outlives its cancellation because the peer is silent *)
 Stall ==
-  /\ Running /\ cancelled /\ silent /\ "StallAfterCancel" \in Dev
+  /\ Running /\ cancelled /\ silent
+  /\ ("StallAfterCancel" \in Dev \/ ("DeadlineCtxLosesCancel" \in Dev /\ ctxd))   \* the second: only the context's own deadline is watched
   /\ result' = "stall"
-  /\ UNCHANGED <<steps, inStep, broken, cancelled, silent, ready>>
+  /\ UNCHANGED <<steps, inStep, broken, cancelled, silent, ctxd, ready>>
 
 Next == StepBegin \/ StepEnd(TRUE) \/ StepEnd(FALSE) \/ Fault \/ Cancel \/ ReturnOK \/ ReturnErr \/ Stall
 Spec == Init /\ [][Next]_vars
